@@ -33,6 +33,9 @@ var (
 	// ErrDestinationExists in an Move operation means that the target exists on
 	// the worktree.
 	ErrDestinationExists = errors.New("destination exists")
+	// ErrMoveDirectory in a Move operation means that the source is a
+	// directory, which Move does not support.
+	ErrMoveDirectory = errors.New("source is a directory")
 	// ErrGlobNoMatches in an AddGlob if the glob pattern does not match any
 	// files in the worktree.
 	ErrGlobNoMatches = errors.New("glob pattern did not match any files")
@@ -877,8 +880,14 @@ func (w *Worktree) RemoveGlob(pattern string) error {
 // not supported.
 func (w *Worktree) Move(from, to string) (plumbing.Hash, error) {
 	// TODO(mcuadros): support directories and/or implement support for glob
-	if _, err := w.filesystem.Lstat(from); err != nil {
+	fi, err := w.filesystem.Lstat(from)
+	if err != nil {
 		return plumbing.ZeroHash, err
+	}
+	if fi.IsDir() {
+		// The index can still have a file of that name; its entry is not
+		// what the directory holds.
+		return plumbing.ZeroHash, fmt.Errorf("%w: %s", ErrMoveDirectory, from)
 	}
 
 	if _, err := w.filesystem.Lstat(to); err == nil {
